@@ -4,6 +4,7 @@ import TeaTasting.Spec.Sample
 import TeaTasting.Spec.Fast
 import TeaTasting.Spec.Multiplicity
 import TeaTasting.Spec.Proportion
+import TeaTasting.Spec.Power
 
 /-! Driver for the SPECIFICATION side (`Spec/*.lean`) at `ℚ`; imports nothing generated, so it
 keeps working when the regenerated model does not compile.  It evaluates the `…Exec` forms of
@@ -56,6 +57,18 @@ def handler (cmd : String) : P String := do
     match xs with
     | [m1, v1, n1, m2, v2, n2] => pure (showResult (testFromStats (Stubs.family fam) o m1 v1 n1 m2 v2 n2))
     | _ => throw "from_stats args"
+  | "power" =>
+    let fam ← nat
+    let alt ← str
+    let ev ← bool
+    let ut ← bool
+    let alpha ← rat
+    let ratio ← rat
+    let v ← rat
+    let n ← rat
+    let d ← rat
+    pure (showRat (power (Stubs.family fam)
+      { alternative := alt, equal_var := ev, use_t := ut, alpha := alpha, ratio := ratio } v n d))
   | "sr" =>
     let fam ← nat
     let c ← srcfg
